@@ -58,7 +58,8 @@ class Check(BaseCheck):
                 continue
             stats.case(core.mesh_key(v, t), cls=["class:" + c["name"]] + ["mod:" + x for x in c["tags"] if x != c["name"]],
                        sample=dict(name=c["name"], nv=len(v), nt=len(t)))
-            res = core.call(impl_measures, v, t)
+            pv, pt = gen.arrays(c)          # same values; memory layout / index dtype / integer coordinates as the case says
+            res = core.call(impl_measures, pv, pt)
             r = wire.Reply(drv.ask("measures %s %s" % (wire.verts(v), wire.elems(t))))
             if res[0] != "ok" or r.status != "ok":
                 fails.append(core.Failure("correspondence", "measures vs model", "%s: impl %s model %s" % (c["name"], str(res)[:100], r.raw[:60]), c))
@@ -80,7 +81,7 @@ class Check(BaseCheck):
             d = float(rng.uniform(-0.5, 0.5))
             ro = drv.ask("offset %s %s %s" % (wire.fhex(d), wire.verts(v), wire.elems(t)))
             def off():
-                m = TriaMesh(v, t); m.normal_offset_(d); return np.array(m.v)
+                m = TriaMesh(pv, pt); m.normal_offset_(d); return np.array(m.v)
             io = core.call(off)
             if io[0] == "ok":
                 rr = wire.Reply(ro)
@@ -93,7 +94,7 @@ class Check(BaseCheck):
                 # model's function of the current vertices (no cached normals may survive a vertex-moving operation)
                 ds = [0.2 * im["avg"] * float(rng.uniform(0.3, 1.0)), -0.15 * im["avg"] * float(rng.uniform(0.3, 1.0))]
                 def seq_impl():
-                    m = TriaMesh(v, t)
+                    m = TriaMesh(pv, pt)
                     out = [np.array(m.vertex_normals())]
                     for dd in ds:
                         m.normal_offset_(dd)
@@ -129,17 +130,18 @@ class Check(BaseCheck):
     def search_cases(self):
         for c in gen.tria_stream(self.seed + 53, 40 if self.quick else 300, "small"):
             if len(np.unique(c["t"])) == len(c["v"]):
-                yield dict(v=c["v"], t=c["t"], name=c["name"])
+                yield dict(v=c["v"], t=c["t"], name=c["name"], pres=c.get("pres"), vdtype=c.get("vdtype"))
 
     def oracle(self, case):
         v = np.asarray(case["v"], float); t = np.asarray(case["t"], dtype=np.int64)
+        pv, pt = (v, t) if case.get("kind") == "tet" else gen.arrays(case)
         if case.get("kind") == "tet":
             with core.quiet():
                 a = TetMesh(v, t).avg_edge_length()
             ed = {(min(x, y), max(x, y)) for tt in t for x in tt for y in tt if x != y}
             ref = np.mean([np.linalg.norm(v[x] - v[y]) for x, y in ed])
             return None if abs(a - ref) <= 1e-9 * ref else core.Violation("avg_edge_length", "tetra avg edge %.10g vs %.10g" % (a, ref), case)
-        res = core.call(impl_measures, v, t)
+        res = core.call(impl_measures, pv, pt)
         if res[0] != "ok":
             return core.Violation("runs", "raised %s" % (res[1:],), case)
         im = res[1]
@@ -215,13 +217,13 @@ class Check(BaseCheck):
                 return core.Violation("vertex_normals", "vertex normals not unit", case)
             d = 0.37
             def off():
-                m = TriaMesh(v, t); m.normal_offset_(d); return np.array(m.v)
+                m = TriaMesh(pv, pt); m.normal_offset_(d); return np.array(m.v)
             io = core.call(off)
             if io[0] != "ok" or np.max(np.abs(np.linalg.norm(io[1] - v, axis=1)[ln > 0.5] - d)) > 1e-9:
                 return core.Violation("normal_offset_", "vertices not moved by exactly |d| along the vertex normal", case)
             # the same on ONE object across vertex-moving operations: normals / offsets always refer to the current vertices
             def seq():
-                m = TriaMesh(v, t)
+                m = TriaMesh(pv, pt)
                 m.vertex_normals()
                 out = []
                 for op, arg in (("normal_offset_", 0.21 * im["avg"]), ("smooth_", 1), ("normal_offset_", -0.13 * im["avg"])):
